@@ -23,6 +23,10 @@ pub fn model_sizes(n: u32, with_big: bool) -> Vec<u32> {
 /// boundary size paired with every small size (the other dimension <= T).
 pub fn model_pairs(tier: Tier) -> Vec<(u32, u32)> {
     let (s, t): (u32, u32) = tier.pick((40, 6), (160, 24));
+    model_pairs_st(s, t)
+}
+
+pub fn model_pairs_st(s: u32, t: u32) -> Vec<(u32, u32)> {
     let mut v = vec![];
     for a in 1..=s {
         for b in 1..=s {
